@@ -1,4 +1,4 @@
-CONSTANTS MaxParams = 2 MaxVars = 2 Pool = "small" MaxCalls = 1 Mutant = "none"
+CONSTANTS MaxParams = 2 MaxVars = 2 Pool = "small" MaxCalls = 1 OptFields = {} MaxPages = 1 Mutant = "none"
 SPECIFICATION Spec
 INVARIANT Inv_Explicit
 INVARIANT Inv_NoHeaderWhenNothing
